@@ -273,7 +273,7 @@ def graph_replay(ctx, spec_dir, module, cfg, tag, replayer, proj_keys, header_fn
         # the replayer died (crash / sanitizer / timeout): find the scenario it was in
         done = pr["ok"] + len(pr["diverged"]) + len(pr["errors"])
         sid = "%s_%d" % (tag, done)
-        txt = "#replayer %s\n" % os.path.basename(replayer) + scenario_text(script, sid)
+        txt = vlib.replayer_line(replayer) + scenario_text(script, sid)
         tail = out[-1500:]
         key = key_fn(sid, "crash", txt) if key_fn else "crash:%s" % module
         ctx.violation(key, "replayer terminated abnormally (rc=%s) while replaying scenario %s of %s: %s" % (
@@ -286,7 +286,7 @@ def graph_replay(ctx, spec_dir, module, cfg, tag, replayer, proj_keys, header_fn
     ctx.steps += n
     for line in pr["diverged"][:3]:
         sid = line.split()[1]
-        txt = "#replayer %s\n" % os.path.basename(replayer) + scenario_text(script, sid)
+        txt = vlib.replayer_line(replayer) + scenario_text(script, sid)
         key = key_fn(sid, line, txt) if key_fn else "diverge:%s:%s" % (module, re.sub(r"^DIVERGE \S+ ", "", line)[:80])
         ctx.violation(key, "implementation diverges from %s: %s" % (module, line[:500]), txt + "#" + line + "\n")
     # keep a sample
@@ -313,7 +313,7 @@ def replay_tlc_trace(ctx, res, replayer, proj, hdr, tag, replayer_args=None):
         f.write("END\n")
     rc, out = vlib.run_cmd([replayer] + (replayer_args or []), stdin_path=script, timeout=120)
     pr = parse_replay_output(out)
-    text = "#replayer %s\n" % os.path.basename(replayer) + open(script).read()
+    text = vlib.replayer_line(replayer) + open(script).read()
     os.remove(script)
     followed = pr["summary"] is not None and pr["ok"] == 1
     return followed, out, text
